@@ -65,6 +65,16 @@ def run_c10(prop, tier, seed, replay=None):
             raise Internal("Requests simulation: only %d behaviours" % len(scen))
         for i, sc in enumerate(scen):
             sc["id"] = i
+    if not replay:
+        # real Readers as consumers: their add/withdraw sequences, and what is left when they close
+        for k, (off, ln) in enumerate(READER_RANGES):
+            r = run_tlc("MCReader", "Reader_sim%d.cfg" % (k + 1), workers=1, simulate=8 if tier == "quick" else 100, depth=17, seed=seed + k, timeout=1800)
+            require_ok(r, "Reader simulation %d" % k)
+            for p in sorted(set(r.lines("BEH"))):
+                steps = json.loads(p)
+                steps[0]["s"] = steps[0].pop("complete")
+                scen.append({"kind": "reader", "offset": off, "length": ln, "steps": steps, "id": len(scen)})
+            os.unlink(r.outfile)
     applied, stats = harness(v, prop, scen)
     v.cov["traces_validated_against_impl"] = len(scen)
     v.cov["evaluations"] = len(scen)
